@@ -52,19 +52,22 @@ theorem seq_singleton (g : Graph) (a : Path) (fetch : Bool) (n : Node) :
     den g (.seq [a]) fetch n = den g a fetch n := by simp [den, denSeq]
 
 /-- `p^` follows the predicate backwards: it yields the subjects having a link to the focus node. -/
-theorem inverse_is_converse (g : Graph) (iri : String) (fetch : Bool) (n m : Node) :
+theorem inverse_is_converse (g : Graph) (iri : String) (fetch : Bool) (n m : Node)
+    (hreg : customName? iri = none) :
     Item.node m ∈ den g (.prop iri true) fetch n ↔ m ∈ g ∧ Val.ref n.id ∈ m.get iri := by
-  simp [den, stepItems, stepInv, List.mem_filter]
+  simp [den, stepItems, stepInv, List.mem_filter, hreg]
 
 /-- a forward predicate yields its objects (raw values for value constraints) -/
-theorem forward_values (g : Graph) (iri : String) (n : Node) (x : Item) :
+theorem forward_values (g : Graph) (iri : String) (n : Node) (x : Item)
+    (hreg : customName? iri = none) :
     x ∈ den g (.prop iri false) false n ↔ ∃ v ∈ n.get iri, x = Item.lit v := by
-  simp [den, stepItems, eq_comm]
+  simp [den, stepItems, eq_comm, hreg]
 
 /-- … and the indexed nodes they link to when nodes are requested (`nested`) -/
-theorem forward_nodes (g : Graph) (iri : String) (n m : Node) :
+theorem forward_nodes (g : Graph) (iri : String) (n m : Node)
+    (hreg : customName? iri = none) :
     Item.node m ∈ den g (.prop iri false) true n ↔ ∃ id, Val.ref id ∈ n.get iri ∧ g.find id = some m := by
-  simp only [den, stepItems, stepFwdNodes, Bool.false_eq_true, ↓reduceIte, List.mem_map,
+  simp only [den, stepItems, hreg, stepFwdNodes, Bool.false_eq_true, ↓reduceIte, List.mem_map,
     List.mem_filterMap, Item.node.injEq, exists_eq_right]
   constructor
   · rintro ⟨v, hv, h⟩
@@ -72,6 +75,18 @@ theorem forward_nodes (g : Graph) (iri : String) (n m : Node) :
     exact ⟨_, hv, h⟩
   · rintro ⟨id, hv, h⟩
     exact ⟨.ref id, hv, h⟩
+
+/-- a step in the API-extension namespace yields the annotation nodes of that name attached to the node
+(the ids of those nodes when values are requested) -/
+theorem custom_forward (g : Graph) (iri name : String) (n a : Node) (h : customName? iri = some name) :
+    Item.node a ∈ den g (.prop iri false) true n ↔ a ∈ customNodes g n name := by
+  simp [den, stepItems, h]
+
+theorem custom_inverse (g : Graph) (iri name : String) (fetch : Bool) (n m : Node) (h : customName? iri = some name) :
+    Item.node m ∈ den g (.prop iri true) fetch n ↔
+      n.get extensionNameIri = [Val.str name] ∧ m ∈ g ∧ ∃ p ∈ m.props, p.2 = [Val.ref n.id] := by
+  simp only [den, stepItems, h, ↓reduceIte, List.mem_map, Item.node.injEq, exists_eq_right, customSubjects]
+  split <;> simp_all [List.mem_filter]
 
 /-! ## no variable capture inside a clause -/
 
